@@ -196,7 +196,35 @@ fn main() {
                 vecops_core::exec(ppv_lite86::generic::GenericMachine::instance(), ty, group, k, imm, &mut regs, dst, ia, ib);
             }
             let flat: Vec<u8> = regs.iter().flat_map(|r| r.iter().copied()).collect();
-            out(vecops_core::GROUPS[group], fold(&flat));
+            out(&format!("vecops.{}", vecops_core::GROUPS[group]), fold(&flat));
+        }
+    }
+    if on("vecopsb") {
+        // byte-I/O programs: comparable between hosts of either byte order
+        let mut regs: vecops_core::Regs = [[0u8; 64]; 4];
+        for step in 0..(400 * scale) {
+            if step % 8 == 0 {
+                for r in regs.iter_mut() {
+                    r.copy_from_slice(&bytes(&mut s, 64));
+                }
+            }
+            let ty = (splitmix(&mut s) % 5) as usize;
+            let group = (splitmix(&mut s) % 12) as usize;
+            let k = (splitmix(&mut s) % 8) as u32;
+            let imm = (splitmix(&mut s) % 128) as u32;
+            let (dst, ia, ib) = ((splitmix(&mut s) % 4) as usize, (splitmix(&mut s) % 4) as usize, (splitmix(&mut s) % 4) as usize);
+            #[cfg(all(target_arch = "x86_64", not(miri)))]
+            unsafe {
+                use ppv_lite86::Machine;
+                vecops_core::exec_bytes(ppv_lite86::x86_64::SSE2::instance(), ty, group, k, imm, &mut regs, dst, ia, ib);
+            }
+            #[cfg(not(all(target_arch = "x86_64", not(miri))))]
+            unsafe {
+                use ppv_lite86::Machine;
+                vecops_core::exec_bytes(ppv_lite86::generic::GenericMachine::instance(), ty, group, k, imm, &mut regs, dst, ia, ib);
+            }
+            let flat: Vec<u8> = regs.iter().flat_map(|r| r.iter().copied()).collect();
+            out(&format!("vecopsb.{}.{}", vecops_core::BYTE_TYPES[ty], vecops_core::GROUPS[group]), fold(&flat));
         }
     }
     if on("jh1") {
